@@ -1,6 +1,8 @@
 """C01 -- every CQL value survives an encode/decode round trip (driver against its own inverse)."""
 import os
 
+from hypothesis import strategies as st
+
 from vlib.harness import EnumPart, hyp_part
 from spec import values as V
 from checks import _drv
@@ -13,7 +15,8 @@ LEVEL = "exploration"
 ENGINE = "codec"
 TECHNIQUE = ("property-based testing (Hypothesis): generated (type tree, value, protocol version) triples are pushed through the "
              "driver's Type.to_binary and Type.from_binary; the inverse is the oracle, equality is decided on an independent "
-             "tagged-value form (spec.values.normalise/canon)")
+             "tagged-value form (spec.values.normalise/canon); collection framing limits (element sizes and counts in the upper half of "
+             "the 16-bit range of protocol v1/v2, and across 2^16 on v3+) are reached by construction from exactly sized elements")
 RULE = ("Hypothesis draws a type tree (depth drawn first from 0..3, 0..4 in the thorough tier; leaves = all 21 scalar CQL types; inner "
         "nodes list/set/map/tuple/UDT/vector/frozen/reversed; set elements and map keys restricted to orderable/hashable types), a "
         "value built by construction for that tree (boundary-weighted integers +-2^k+-1, varints up to 2^320, decimals with exponents "
@@ -28,13 +31,22 @@ RULE = ("Hypothesis draws a type tree (depth drawn first from 0..3, 0..4 in the 
         "short tuple, float special, date beyond datetime.date, a timezone-aware datetime input).  Part vint-size-boundaries enumerates vectors "
         "(dimension 1-3) of variable-width element types with one element whose encoding is exactly 0, 1, 126..129, 255, 256, "
         "16383..16385 or about 2^21 bytes.  Part input-spellings enumerates every accepted python spelling of date, time and timestamp values "
-        "over 22 boundary days on both sides of the epoch x 5 times of day x 5 embeddings.  Distinctness by case digest.")
+        "over 22 boundary days on both sides of the epoch x 5 times of day x 5 embeddings.  Part framing-boundaries (Hypothesis) draws a "
+        "collection embedding (list / set / map key / map value / frozen list / reversed set / list or map directly below a vector), a "
+        "protocol version (half of the draws v1/v2, whose collections carry unsigned 16-bit counts and lengths; the rest v3-v5/DSE "
+        "with signed 32-bit ones) and either one element of an exactly sized encoding (text/ascii/blob/varint/decimal/tuple/nested "
+        "list, set, map; size drawn from 2^k+-2 for k in 7,8,14,15,16, from 0..65535 uniformly or from 32768..65535; 1-3 elements with the "
+        "sized one at a drawn position, so that a mis-read length also derails the elements after it) or (one draw in 40) an element COUNT drawn the "
+        "same way (distinct ints); sizes and counts are clamped to what the framing can express (65535 on v1/v2).  Non-trivial there: "
+        "16-bit framing in use, or the size/count is >= 2^15 or within 2 of 2^7, 2^8, 2^14, 2^15, 2^16.  Distinctness by case digest.")
 ASSUMPTIONS = [
     "float values are float32-representable; timestamps are naive or fixed-offset aware datetimes (or ints) with millisecond precision inside datetime's range; aware datetimes must come back as the naive UTC datetime of the same instant",
     "set elements / map keys are types the driver documents as orderable/serializable keys, contain no nulls and no NaN",
     "a top-level None is only checked as the documented b''<->None convention (part 'null'); support_empty_values is left off",
     "counter appears only as a top-level type; vectors have dimension >= 1 and non-null elements",
     "a null element of a top-level collection on protocol v1/v2 (16-bit lengths) has no representation and is outside the domain",
+    "on protocol v1/v2 a collection element longer than 65535 bytes or a collection of more than 65535 elements has no representation and is outside the domain; every size/count up to 65535 is legal (the driver writes them with uint16_pack) and must come back",
+    "framing-boundaries keeps varint/decimal elements <= 1024 bytes (python's int<->str limit in the reference form); a larger drawn size turns the element into text/ascii/blob (tuple/list/set/map elements take any size)",
 ]
 # the quick tier is ~15 s of single-core work; forking workers costs more than it saves
 SERIAL = os.environ.get("VERIF_TIER") == "quick"
@@ -260,6 +272,124 @@ def interpret_vint_size(case, ctx):
                   "%s with an element of %d bytes does not survive the round trip" % (V.cql_name(tree), case["size"]))
 
 
+# --- collection framing boundaries: element sizes / element counts around 2^7, 2^8, 2^15, 2^16 --------------------
+# Protocol v1/v2 frame the elements of a top-level collection (and of a collection directly below a vector,
+# which hands the protocol version on unchanged) with unsigned 16-bit counts and lengths; v3+ uses signed
+# 32-bit ones.  The typed_values generator never builds an element larger than a few hundred bytes or a
+# collection of more than a handful of elements, so the upper half of the 16-bit range (where a signed and
+# an unsigned reading part ways) has to be reached by construction.
+
+FB_EMBEDS = ("list", "set", "map-key", "map-value", "frozen-list", "reversed-set", "vector-of-list", "vector-of-map")
+FB_ETYPES = ("text", "ascii", "blob", "varint", "decimal", "tuple", "list", "set", "map")
+_FB_HASHABLE = ("text", "ascii", "blob", "varint", "decimal", "tuple")      # what may sit in a set / be a map key
+_FB_EDGES = tuple(sorted({(1 << k) + d for k in (7, 8, 14, 15, 16) for d in (-2, -1, 0, 1, 2)} | {0, 1, 4, 40000, 50000, 65000}))
+_FB_MAX16 = 0xFFFF
+_FB_MIN_SIZE = {"decimal": 5, "map": 16, "list": 8, "set": 8, "tuple": 4, "varint": 1}
+_FB_MAX_SIZE = {"decimal": 1024, "varint": 1024}        # (python refuses int<->str beyond 4300 digits)
+
+
+def _fb_fix(embed, etype, size, n, pos, pv, mode, count):
+    """make the drawn tuple a legal case by construction (no filtering): hashable element types where the
+    embedding needs them, sizes / counts the 16-bit framing of v1/v2 can express, sizes the element type has"""
+    if embed in ("set", "map-key", "reversed-set", "vector-of-map") and etype not in _FB_HASHABLE:
+        etype = _FB_HASHABLE[FB_ETYPES.index(etype) % 3]                        # -> text / ascii / blob
+    limit = _FB_MAX16 if pv < 3 else (1 << 16) + 2
+    if mode == "count":
+        if pv >= 3 and pos:
+            pv, limit = 1 + n % 2, _FB_MAX16        # a count near 2^15/2^16 says little under 32-bit framing: mostly v1/v2
+        return {"mode": "count", "embed": embed, "count": min(count, limit), "pv": pv}
+    size = min(size, limit)
+    if size > _FB_MAX_SIZE.get(etype, limit):
+        etype = _FB_HASHABLE[FB_ETYPES.index(etype) % 3]                        # no value that large: text / ascii / blob
+    size = max(size, _FB_MIN_SIZE.get(etype, 0))
+    return {"mode": "size", "embed": embed, "etype": etype, "size": size, "n": n, "pos": pos % n, "pv": pv}
+
+
+def s_framing():
+    sizes = st.one_of(st.sampled_from(_FB_EDGES), st.integers(0, _FB_MAX16 + 3), st.integers(1 << 15, _FB_MAX16 + 3))
+    counts = st.one_of(st.sampled_from(_FB_EDGES), st.integers(0, _FB_MAX16), st.integers(1 << 15, _FB_MAX16))
+    return st.builds(_fb_fix, st.sampled_from(FB_EMBEDS), st.sampled_from(FB_ETYPES), sizes, st.integers(1, 3),
+                     st.integers(0, 2), st.sampled_from((1, 2, 1, 2, 3, 4, 5, 0x42)),
+                     st.sampled_from(("size",) * 39 + ("count",)), counts)      # (a 65535-entry map costs ~1 s)
+
+
+def _fb_wrap(embed, sub, elements):
+    """-> (tree, tagged value) of the collection that carries `elements` (tagged values of type `sub`)"""
+    I = V.T("int")
+    if embed == "list":
+        return V.t_list(sub), elements
+    if embed == "set":
+        return V.t_set(sub), elements
+    if embed == "map-key":
+        return V.t_map(sub, I), [[e, i] for i, e in enumerate(elements)]
+    if embed == "map-value":
+        return V.t_map(I, sub), [[i, e] for i, e in enumerate(elements)]
+    if embed == "frozen-list":
+        return V.t_frozen(V.t_list(sub)), elements
+    if embed == "reversed-set":
+        return V.t_reversed(V.t_set(sub)), elements
+    if embed == "vector-of-list":
+        return V.t_vector(V.t_list(sub), 1), [elements]
+    return V.t_vector(V.t_map(sub, I), 1), [[[e, i] for i, e in enumerate(elements)]]
+
+
+def _fb_build(case):
+    if case["mode"] == "count":
+        # `count` distinct small ints (1-4 byte bodies are not what is under test here, the count prefix is)
+        return _fb_wrap(case["embed"], V.T("int"), list(range(case["count"])))
+    etype, size, n, pos = case["etype"], case["size"], case["n"], case["pos"]
+    sub, el = _drv.sized_element(etype, size)
+    base = {"decimal": 6, "map": 17, "list": 9, "set": 9, "tuple": 5}.get(etype, 2)
+    fill = [_drv.sized_element(etype, fs)[1] for fs in range(base, base + 4) if fs != size]     # all distinct, none equal to el
+    elements = [el if i == pos else fill[i] for i in range(n)]
+    return _fb_wrap(case["embed"], sub, elements)
+
+
+def _fb_class(x):
+    return ">=2^16" if x >= 1 << 16 else (">=2^15" if x >= 1 << 15 else ("<2^15" if x >= 256 else "<2^8"))
+
+
+def interpret_framing(case, ctx):
+    """round trip of collections with one element of an exact encoded size, or with an exact element count"""
+    tree, value = _fb_build(case)
+    pv, mode, embed = case["pv"], case["mode"], case["embed"]
+    x = case["size"] if mode == "size" else case["count"]
+    wire = "16-bit" if pv < 3 else "32-bit"
+    feat = [embed, wire, "%s%s" % (mode, _fb_class(x))]
+    edge = any(abs(x - (1 << k)) <= 2 for k in (7, 8, 14, 15, 16))
+    ctx.label("framing", "fb:embed:" + embed, "fb:%s:%s%s" % (wire, mode, _fb_class(x)))
+    if mode == "size":
+        ctx.label("fb:etype:" + case["etype"])
+        if case["pos"] < case["n"] - 1:
+            ctx.label("fb:sized-element-not-last")
+    if edge:
+        ctx.label("fb:%s:%s-at-2^k+-2" % (wire, mode))
+    # non-trivial: the size / count is where 8-, 15- or 16-bit readings differ, or the 16-bit framing is in use at all
+    ctx.nontrivial(pv < 3 or edge or x >= 1 << 15)
+    got = data = back = typ = None
+    try:
+        with ctx.driver(["C01.roundtrip.raises", "collection-framing"] + feat, expect=(V.NormaliseError,)):
+            typ = _drv.build_type(tree)
+            data = typ.to_binary(_drv.to_driver(tree, value, 0), pv)
+            back = typ.from_binary(data, pv)
+            got = _drv.from_driver(tree, back)
+    except V.NormaliseError as e:
+        ctx.fail(["C01.type", "collection-framing"] + feat, str(e)[:300])
+    if ctx._failures:
+        return
+    if not ctx.check(V.same(tree, value, got), ["C01.roundtrip", "collection-framing"] + feat,
+                     "%s pv=%d with %s %d does not survive the round trip" % (
+                         V.cql_name(tree), pv, "an element of encoded size" if mode == "size" else "element count", x)):
+        return
+    # second direction: what came back encodes to the same bytes (sets re-sort, so only ordered containers)
+    if "set" not in embed and not (mode == "size" and case["etype"] == "set"):
+        with ctx.driver(["C01.reencode", "collection-framing"] + feat):
+            data2 = typ.to_binary(back, pv)
+        if not ctx._failures:
+            ctx.check(data2 == data, ["C01.reencode.stable", "collection-framing"] + feat,
+                      "%s pv=%d: decoded value re-encodes differently (%d -> %d bytes)" % (V.cql_name(tree), pv, len(data), len(data2)))
+
+
 def interpret_spelling(case, ctx):
     """round trip of date / time / timestamp values given in every accepted python spelling"""
     tree, value, obj = _drv.spelling_build(case)
@@ -292,4 +422,8 @@ def parts(tier):
         EnumPart("null", list(V.PROTOCOL_VERSIONS), null_cases, interpret_null),
         EnumPart("vint-size-boundaries", _drv.vsb_chunks(), _drv.vsb_cases, interpret_vint_size),
         EnumPart("input-spellings", _drv.spelling_chunks(), _drv.spelling_cases, interpret_spelling),
+        hyp_part("framing-boundaries", s_framing, interpret_framing, tier, quick=800, thorough=4000, quick_shards=2,
+                 thorough_shards=8,
+                 floors={"fb:16-bit:size>=2^15": 0.05, "fb:16-bit:count>=2^15": 0.002, "fb:32-bit:size>=2^15": 0.03,
+                         "fb:embed:list": 0.04, "fb:embed:set": 0.04, "fb:embed:map-key": 0.04, "fb:embed:map-value": 0.04}),
     ]
